@@ -270,6 +270,13 @@ class AT(SymObj):
             if neg[0] == 0 and _entails_eq(I, shape[1], z):
                 return AT(I, (_dimprod(I, x, y), z), _keep(self.ortho, 1), {0: (x, y)},
                           ("view", self.origin, "xy|z"))
+        pair = getattr(self, "pair", None)
+        if pair is not None and len(shape) == 2 and not neg:
+            # two-site tensor (x, d*d, z) -> matrix (x*d, d*z)
+            x, d, z = pair
+            if _entails_eq(I, shape[0], ops.mul(x, d)) and _entails_eq(I, shape[1], ops.mul(d, z)):
+                return AT(I, (_dimprod(I, x, d), _dimprod(I, d, z)), 0, {0: (x, d), 1: (d, z)},
+                          ("view2", self.origin))
         if len(mine) == 2 and len(shape) == 3 and len(neg) == 1:
             R, C = mine
             if neg[0] == 0 and 1 in self.groups:
@@ -318,20 +325,28 @@ def _ortho_and(unit, tag):
 # the factor list
 # ---------------------------------------------------------------------------------------------
 class FactorList(SymObj):
-    def __init__(self, I, name="factors", zero_disc=False):
+    def __init__(self, I, name="factors", zero_disc=False, N=None, d=None, arrays=None):
         super().__init__("FactorList", None)
         ctx = I.ctx
-        N = ctx.fresh("N", "int")
-        d = ctx.fresh("dim", "int")
-        ctx.assume(z3.And(N >= 1, d >= 1))
+        if N is None:
+            N = ctx.fresh("N", "int")
+            ctx.assume(N >= 1)
+        if d is None:
+            d = ctx.fresh("dim", "int")
+            ctx.assume(d >= 1)
         pos = lambda v: v >= 1
-        self.fields.update(
-            N=N, d=d,
-            chiL=fresh_garr(I, "chiL", "int", pos, self),
-            chiR=fresh_garr(I, "chiR", "int", pos, self),
-            iso=fresh_garr(I, "iso", "int", lambda v: z3.And(v >= 0, v <= 2), self),
-            disc=(GArr(lambda j: Fraction(0), "real", None, self) if zero_disc
-                  else fresh_garr(I, "disc", "real", None, self)))
+        self.fields.update(N=N, d=d)
+        if arrays is not None:
+            # a new python list whose ghost view is given (functional arrays are re-owned)
+            for nm, arr in arrays.items():
+                self.fields[nm] = GArr(arr.fn, arr.sort, arr.fact, self)
+        else:
+            self.fields.update(
+                chiL=fresh_garr(I, "chiL", "int", pos, self),
+                chiR=fresh_garr(I, "chiR", "int", pos, self),
+                iso=fresh_garr(I, "iso", "int", lambda v: z3.And(v >= 0, v <= 2), self),
+                disc=(GArr(lambda j: Fraction(0), "real", None, self) if zero_disc
+                      else fresh_garr(I, "disc", "real", None, self)))
         self.pending = None
         self.intact = True
         self.ver = 0
@@ -370,7 +385,23 @@ class FactorList(SymObj):
             return idx
         return z3.If(iz < 0, iz + N, iz)
 
+    def _pair_slice(self, I, sl):
+        """factors[l : l + 2] -> l (anything else is outside the model)"""
+        ctx = I.ctx
+        if sl.step not in (None, 1) or sl.start is None or sl.stop is None:
+            raise Unsupported("slice of a factor list other than [l : l + 2]")
+        lo, hi = to_z3(sl.start), to_z3(sl.stop)
+        N = self.fields["N"]
+        if not ctx.entails(hi - lo == 2):
+            raise Unsupported("slice of a factor list whose length is not provably 2")
+        if not ctx.branch(z3.And(lo >= 0, hi <= N)):
+            raise Unsupported("two-site slice reaching beyond the factor list")
+        return sl.start
+
     def getitem(self, I, idx):
+        if isinstance(idx, T.SliceV):
+            lo = self._pair_slice(I, idx)
+            return [self.getitem(I, lo), self.getitem(I, ops.add(lo, 1))]
         k = self._index(I, idx, "read")
         f = self.fields
         return AT(I, (f["chiL"].at(k), f["d"], f["chiR"].at(k)), f["iso"].at(k), None,
@@ -392,6 +423,8 @@ class FactorList(SymObj):
         ctx = I.ctx
         if ctx.speculative:
             raise NeedFork()
+        if isinstance(idx, T.SliceV):
+            return self._store_pair(I, self._pair_slice(I, idx), value)
         i = self._index(I, idx, "store")
         if not isinstance(value, AT) or len(value.fields["shape"]) != 3:
             raise Unsupported("store of a value that is not an abstract 3-leg tensor into a factor list")
@@ -408,6 +441,52 @@ class FactorList(SymObj):
             ctx.log_write(self.oid, nm)
         self.ver += 1
         self.writes.append((self.ver, i))
+
+    def _store_pair(self, I, l, value):
+        """factors[l : l + 2] = (a, b): the result of a two-site update (evolve_pair) -- a declared
+        change of the state (evolution of the two sites) followed by a truncation of their bond"""
+        ctx = I.ctx
+        if not (isinstance(value, (tuple, list)) and len(value) == 2 and all(isinstance(v, AT) for v in value)):
+            raise Unsupported("two-site store of something that is not a pair of abstract factors")
+        if self.pending is not None:
+            raise Unsupported("two-site store in the middle of a gauge move")
+        A, B = value
+        r = ops.add(l, 1)
+        f = self.fields
+        (a0, s0, b0), (a1, s1, b1) = A.fields["shape"], B.fields["shape"]
+        if not (_entails_eq(I, s0, f["d"]) and _entails_eq(I, s1, f["d"])):
+            raise Unsupported("stored factors: physical dimension not provably the list's")
+        ctx.prove("stored-factor-nonempty", z3.And(*[to_z3(v) >= 1 for v in (a0, b0, a1, b1)]), "safety")
+        pairs = ctx.ghost.get("pairs", {})
+        oa, ob = A.origin, B.origin
+        p = pairs.get(oa[1]) if oa[0] == "pair_l" and ob[0] == "pair_r" and oa[1] == ob[1] else None
+        if p is not None and self._current(I, p["src"][0], l) and self._current(I, p["src"][1], r):
+            iso, N = f["iso"], f["N"]
+            I.reg.prove_clause(I, "truncation-at-centre/left-part",
+                               ForallV(lambda j: ops.equal(iso.at(j), 1), 0, l, "j"), "safety")
+            I.reg.prove_clause(I, "truncation-at-centre/right-part",
+                               ForallV(lambda j: ops.equal(iso.at(j), 2), ops.add(r, 1), N, "j"), "safety")
+            delta = p["delta"]
+            pn = p["preserve_norm"]
+            if not (isinstance(pn, bool) and not pn):
+                # preserve_norm rescales the kept part: the weight lost is then not the dropped weight
+                u = ctx.fresh("rescaled_loss", "real")
+                ctx.assume(u >= 0)
+                delta = u if (isinstance(pn, bool) and pn) else z3.If(pn, u, to_z3(delta))
+            disc = f["disc"]
+            f["disc"] = disc.upd(r, ops.add(disc.at(r), delta))
+            ctx.log_write(self.oid, "disc")
+        else:
+            I.session.note("two-site store that the model cannot follow: state identity lost")
+            self.intact = False
+        f["chiL"] = f["chiL"].upd(l, a0).upd(r, a1)
+        f["chiR"] = f["chiR"].upd(l, b0).upd(r, b1)
+        f["iso"] = f["iso"].upd(l, A.ortho).upd(r, B.ortho)
+        for nm in ("chiL", "chiR", "iso"):
+            ctx.log_write(self.oid, nm)
+        for s in (l, r):
+            self.ver += 1
+            self.writes.append((self.ver, s))
 
     # -- what the store does to the represented state ---------------------------------------------
     def _account(self, I, i, value):
@@ -590,9 +669,16 @@ def g_intact(I, F):
     return bool(getattr(F, "intact", True)) and getattr(F, "pending", None) is None
 
 
-def mps_obj(I, centre_known: bool, zero_disc=True):
+def mps_obj(I, centre_known: bool, zero_disc=True, like=None):
+    """an MPS object after __init__; `like`: another such object whose number of sites, physical
+    dimension and eigenstates it shares (the second operand of +)"""
     ctx = I.ctx
-    F = FactorList(I, zero_disc=zero_disc)
+    if like is None:
+        F = FactorList(I, zero_disc=zero_disc)
+        eig = ("r", "g")          # (the basis labels play no role in C10; + asserts they agree)
+    else:
+        F = FactorList(I, zero_disc=zero_disc, N=like.fields["num_sites"], d=like.fields["dim"])
+        eig = like.fields["eigenstates"]
     o = SymObj("MPS", MPSMOD)
     N = F.fields["N"]
     c = None
@@ -601,8 +687,145 @@ def mps_obj(I, centre_known: bool, zero_disc=True):
         ctx.assume(z3.And(c >= 0, c < N))
     o.fields.update(factors=F, num_sites=N, dim=F.fields["d"], orthogonality_center=c,
                     precision=ctx.fresh("precision", "real"), max_bond_dim=ctx.fresh("max_bond_dim", "int"),
-                    eigenstates=Opaque("eigenstates"))
+                    eigenstates=eig)
     return o
+
+
+# ---------------------------------------------------------------------------------------------
+# models of the list-building helpers of emu_mps/algebra.py and of the MPS constructor
+# (symbolic-length comprehensions over tensors are outside the verified subset: assumed, read)
+# ---------------------------------------------------------------------------------------------
+def m_scale_factors(I, factors, scalar, *, which):
+    """[scalar * f if i == which else f for i, f in enumerate(factors)]: a NEW list; exactly the
+    factor at position `which` (if there is one) is multiplied by the scalar"""
+    if not isinstance(factors, FactorList):
+        raise Unsupported("scale_factors of a list outside the C10 model")
+    ctx = I.ctx
+    I.session.note("emu_mps.algebra.scale_factors: modelled (new list, factor `which` scaled; read, not verified)")
+    f = factors.fields
+    N = f["N"]
+    wz = to_z3(which)
+    if not ctx.branch(z3.And(wz >= 0, wz < N)):
+        return FactorList(I, N=N, d=f["d"], arrays={k: f[k] for k in ("chiL", "chiR", "iso", "disc")})
+    a2, unit = _scale_of(I, scalar)
+    iso = f["iso"]
+    return FactorList(I, N=N, d=f["d"], arrays=dict(
+        chiL=f["chiL"], chiR=f["chiR"],
+        iso=iso.upd(which, _ortho_if(unit, iso.at(which))),
+        disc=f["disc"].map(lambda v: ops.mul(a2, v))))
+
+
+def m_add_factors(I, left, right):
+    """direct sum of two factor lists (emu_mps/algebra.py add_factors): first site concatenated
+    along the right bond, last along the left bond, the others block-diagonal.  The result is a new
+    state: no orthonormality, nothing discarded yet."""
+    if not (isinstance(left, FactorList) and isinstance(right, FactorList)):
+        raise Unsupported("add_factors of lists outside the C10 model")
+    ctx = I.ctx
+    I.session.note("emu_mps.algebra.add_factors: modelled (direct-sum bond dimensions; read, not verified)")
+    a, b = left.fields, right.fields
+    N = a["N"]
+    if not ctx.branch(to_z3(ops.equal(N, b["N"]))):
+        raise RaiseSig("ValueError", "different number of sites", ctx.cur_line)
+    Nz = to_z3(N)
+    aL, aR, bL, bR = a["chiL"], a["chiR"], b["chiL"], b["chiR"]
+    chiL = GArr(lambda j: ops.ite(ops.equal(j, 0), aL.at(j), ops.add(aL.at(j), bL.at(j))), "int")
+    chiR = GArr(lambda j: ops.ite(ops.b_and(ops.equal(j, Nz - 1), ops.b_not(ops.equal(j, 0))), aR.at(j),
+                                  ops.add(aR.at(j), bR.at(j))), "int")
+    return FactorList(I, N=N, d=a["d"], arrays=dict(
+        chiL=chiL, chiR=chiR, iso=GArr(lambda j: 0, "int"), disc=GArr(lambda j: Fraction(0), "real")))
+
+
+def m_mps_ctor(I, cref, args, kwargs):
+    """MPS(factors, orthogonality_center=, precision=, max_bond_dim=, ...): the fields C10 talks about.
+    The constructor's shape asserts (consecutive bonds match, outer bonds 1, more than one site,
+    physical dimension) are assumed to pass; the range assert on the centre is modelled."""
+    ctx = I.ctx
+    F = args[0]
+    if not isinstance(F, FactorList):
+        raise Unsupported("MPS(...) from a list outside the C10 model")
+    I.session.note("MPS.__init__: modelled (fields set from the arguments; shape asserts assumed to pass)")
+    c = kwargs.get("orthogonality_center")
+    N = F.fields["N"]
+    if c is not None and not ctx.branch(z3.And(to_z3(c) >= 0, to_z3(c) < to_z3(N))):
+        raise RaiseSig("AssertionError", "Invalid orthogonality center provided", ctx.cur_line)
+    o = SymObj("MPS", MPSMOD)
+    o.fields.update(factors=F, num_sites=N, dim=F.fields["d"], orthogonality_center=c,
+                    precision=kwargs.get("precision", Fraction(1, 100000)),
+                    max_bond_dim=kwargs.get("max_bond_dim", 1024),
+                    eigenstates=kwargs.get("eigenstates", ("r", "g")))
+    return o
+
+
+# ---------------------------------------------------------------------------------------------
+# two-site / one-site evolution kernels (emu_mps/solver_utils.py): shapes only (A4)
+# ---------------------------------------------------------------------------------------------
+def m_make_op(I, *, time_step, state_factors, baths, ham_factors, dim=2):
+    """make_op: (two-site tensor of shape (left bond, dim^2, right bond), device, operator)"""
+    if not (isinstance(state_factors, (list, tuple)) and len(state_factors) == 2
+            and all(isinstance(s, AT) for s in state_factors)):
+        raise Unsupported("make_op on factors outside the C10 model")
+    ctx = I.ctx
+    a, b = state_factors
+    (x, d0, y0), (y1, d1, z) = a.fields["shape"], b.fields["shape"]
+    if not ctx.branch(to_z3(ops.equal(y0, y1))):
+        raise RaiseSig("RuntimeError", "tensordot: contracted dimensions differ", ctx.cur_line)
+    if not (_entails_eq(I, d0, dim) and _entails_eq(I, d1, dim)):
+        raise Unsupported("make_op: physical dimensions not provably `dim`")
+    I.session.note("make_op: modelled (two-site tensor of shape (left bond, dim^2, right bond); read, not verified)")
+    t = AT(I, (x, ops.mul(dim, dim), z), 0, None, ("pair", a.origin, b.origin))
+    t.pair = (x, dim, z)
+    return (t, Opaque("right_device"), Opaque("op"))
+
+
+def m_krylov_exp(I, op, v, **k):
+    """krylov_exp(op, v): a tensor of the shape of v (its accuracy is C07's business)"""
+    if not isinstance(v, AT):
+        raise Unsupported("krylov_exp on a value outside the C10 model")
+    I.session.note("krylov_exp: assumed to return a tensor of the shape of its argument (A4; accuracy: C07)")
+    t = AT(I, v.fields["shape"], 0, None, ("evolved", v.origin))
+    if hasattr(v, "pair"):
+        t.pair = v.pair
+    return t
+
+
+def m_evolve_single(I, *, state_factor, baths, ham_factor, dt, is_hermitian, config):
+    if not isinstance(state_factor, AT):
+        raise Unsupported("evolve_single on a value outside the C10 model")
+    I.session.note("evolve_single: modelled (returns krylov_exp(op, state_factor): same shape; read)")
+    return AT(I, state_factor.fields["shape"], 0, None, ("local_op", state_factor.origin))
+
+
+def pair_result(I, name, env):
+    """evolve_pair at a call site: the two new factors with their ghost handles"""
+    ctx = I.ctx
+    sf = env["state_factors"]
+    if not (isinstance(sf, (list, tuple)) and len(sf) == 2 and all(isinstance(s, AT) for s in sf)):
+        return Opaque(name)
+    a, b = sf
+    x, d, _ = a.fields["shape"]
+    _, _, z = b.fields["shape"]
+    ocr = env["orth_center_right"]
+    n = ops.ite(ocr, _dimprod(I, x, d), _dimprod(I, d, z))
+    ev = I.reg.sym_tensor(I, ctx.fresh_name("eig"), (n,))
+    ctx.ghost["eigh_d"] = ev
+    k = ctx.fresh("kept", "int")
+    eid = next(_ids)
+    left = AT(I, (x, d, k), _ortho_if(ocr, 1), None, ("pair_l", eid))
+    right = AT(I, (k, d, z), _ortho_if(ops.b_not(ocr), 2), None, ("pair_r", eid))
+    ctx.ghost.setdefault("pairs", {})[eid] = dict(
+        src=(a.origin, b.origin), delta=mps_utils.prefix(I, ev, ops.sub(n, k)),
+        preserve_norm=ops.b_not(env["is_hermitian"]))
+    return (left, right)
+
+
+def cfg_obj(I, name="config"):
+    c = SymObj("MPSConfig", None)
+    ctx = I.ctx
+    c.fields.update(precision=ctx.fresh("precision", "real"), max_bond_dim=ctx.fresh("max_bond_dim", "int"),
+                    extra_krylov_tolerance=ctx.fresh("extra_krylov_tolerance", "real"),
+                    max_krylov_dim=ctx.fresh("max_krylov_dim", "int"))
+    return c
 
 
 CANON_IN = [
@@ -799,9 +1022,162 @@ def register(reg, prop="C10"):
     for known in (True, False):
         reg.add_contract(apply(known), callsite=False)
 
+    # ==== MPS.__rmul__ / __imul__ =======================================================================
+    reg.policies["emu_mps.algebra:scale_factors"] = m_scale_factors
+    reg.policies["emu_mps.algebra:add_factors"] = m_add_factors
+    reg.class_policies["MPS"] = m_mps_ctor
+    R_CANON = ["forall(lambda j: iso(result.factors, j) == 1, 0, lo_c(result))",
+               "forall(lambda j: iso(result.factors, j) == 2, hi_c(result) + 1, result.num_sites)"]
+
+    def rmul(known, name):
+        return Contract(
+            f"{MPSMOD}:MPS.{name}", property=prop,
+            label=f"MPS.{name}" + ("" if known else "[centre None]"),
+            params={"self": lambda I, n: mps_obj(I, known, zero_disc=False), "scalar": "real"},
+            requires=CANON_IN + [BONDS, "intact(self.factors)"],
+            raises={},
+            policies={f"{MPSMOD}:MPS.__rmul__": "inline"},
+            ensures=[
+                # the declared centre is kept, and it stays valid: only the centre tensor is scaled
+                "has_centre(result) == has_centre(self)",
+                "implies(has_centre(self), centre(result) == centre(self))",
+            ] + R_CANON + [
+                "result.num_sites == self.num_sites and result.precision == self.precision "
+                "and result.max_bond_dim == self.max_bond_dim",
+                "forall(lambda j: chiL(result.factors, j) == chiL(self.factors, j) and "
+                "chiR(result.factors, j) == chiR(self.factors, j), 0, self.num_sites)",
+                # the state is scaled by the scalar: weights already discarded scale with |scalar|^2
+                "forall(lambda j: disc(result.factors, j) == scalar * scalar * disc(self.factors, j), 1, self.num_sites)",
+                # self is left alone
+                "forall(lambda j: iso(self.factors, j) == iso(old(self.factors), j), 0, self.num_sites)",
+            ])
+    for nm in ("__rmul__", "__imul__"):
+        for known in (True, False):
+            reg.add_contract(rmul(known, nm), callsite=False)
+
+    # ==== MPS.__add__ ===================================================================================
+    def add(known):
+        def setup(I, fr):
+            fr.locals["other"] = mps_obj(I, True, like=fr.locals["self"])
+        return Contract(
+            f"{MPSMOD}:MPS.__add__", property=prop,
+            label="MPS.__add__" + ("" if known else "[centre None]"),
+            params={"self": lambda I, n: mps_obj(I, known), "other": "opaque"}, setup=setup,
+            requires=["self.precision > 0", "self.max_bond_dim >= 1", BONDS, BONDS.replace("self.", "other."),
+                      "intact(self.factors)", "intact(other.factors)"],
+            raises={},
+            ensures=[
+                # "The resulting MPS is orthogonalized on the first site and truncated up to
+                # self.config.precision": the sum is a new state, truncated with SELF's settings
+                "has_centre(result) and centre(result) == 0",
+                "forall(lambda j: chiL(result.factors, j) <= self.max_bond_dim, 1, self.num_sites)",
+                "forall(lambda j: iso(result.factors, j) == 2, 1, self.num_sites)",
+                "forall(lambda j: disc(result.factors, j) <= self.precision * self.precision "
+                "or chiL(result.factors, j) == self.max_bond_dim, 1, self.num_sites)",
+                "forall(lambda j: chiL(result.factors, j) == chiR(result.factors, j - 1), 1, self.num_sites)",
+                "intact(result.factors)",
+                "result.num_sites == self.num_sites",
+            ])
+    for known in (True, False):
+        reg.add_contract(add(known), callsite=False)
+
+    # ==== evolve_pair (solver_utils) ======================================================================
+    SOLV = "emu_mps.solver_utils"
+    IMPL = "emu_mps.mps_backend_impl"
+    reg.policies[f"{SOLV}:make_op"] = m_make_op
+    reg.policies["emu_base.math.krylov_exp:krylov_exp"] = m_krylov_exp
+    reg.policies[f"{SOLV}:evolve_single"] = m_evolve_single
+    reg.ghost_funcs["ortho"] = lambda I, t: t.ortho
+
+    def pair_factors(I, n):
+        ctx = I.ctx
+        x, y, z, d = (ctx.fresh(nm, "int") for nm in ("x", "y", "z", "d"))
+        ctx.assume(z3.And(x >= 1, y >= 1, z >= 1, d >= 1))
+        return [AT(I, (x, d, y)), AT(I, (y, d, z))]
+
+    def pair_setup(I, fr):
+        fr.locals["dim"] = fr.locals["state_factors"][0].fields["shape"][1]
+
+    reg.add_contract(Contract(
+        f"{SOLV}:evolve_pair", property=prop,
+        params={"state_factors": pair_factors, "baths": "opaque", "ham_factors": "opaque", "dt": "real",
+                "orth_center_right": "bool", "is_hermitian": "bool", "config": lambda I, n: cfg_obj(I),
+                "dim": "int"},
+        setup=pair_setup,
+        requires=["config.precision > 0", "config.max_bond_dim >= 1",
+                  "state_factors[0].shape[2] == state_factors[1].shape[0]",
+                  "state_factors[0].shape[1] == dim and state_factors[1].shape[1] == dim",
+                  "state_factors[0].shape[0] >= 1 and state_factors[1].shape[2] >= 1 and dim >= 1"],
+        raises={},
+        returns=pair_result,
+        ensures=[
+            # the outer bonds and the physical legs are kept, one common new bond
+            "result[0].shape[0] == state_factors[0].shape[0] and result[0].shape[1] == dim",
+            "result[1].shape[2] == state_factors[1].shape[2] and result[1].shape[1] == dim",
+            "result[0].shape[2] == result[1].shape[0]",
+            # split with max_rank = config.max_bond_dim: the new bond respects the cap
+            "1 <= result[0].shape[2] and result[0].shape[2] <= config.max_bond_dim",
+            # orth_center_right is passed through: the factor AWAY from the new centre is orthonormal
+            "implies(orth_center_right, ortho(result[0]) == 1)",
+            "implies(not orth_center_right, ortho(result[1]) == 2)",
+            # split with max_error = config.precision: unless the cap binds, the dropped weight is <= precision^2
+            "prefix(eig_d(), len(eig_d()) - result[0].shape[2]) <= config.precision * config.precision "
+            "or result[0].shape[2] == config.max_bond_dim",
+        ]))
+
+    # ==== MPSBackendImpl._evolve: centre bookkeeping ========================================================
+    def impl_obj(I, n):
+        o = SymObj("MPSBackendImpl", IMPL)
+        st = mps_obj(I, True)
+        o.fields.update(state=st, hamiltonian=Opaque("hamiltonian"), config=cfg_obj(I),
+                        has_lindblad_noise=I.ctx.fresh("has_lindblad_noise", "bool"), dim=st.fields["dim"])
+        return o
+    reg.add_class("MPSBackendImpl", module=IMPL, fields={})
+    S_CANON = [c.replace("self.", "self.state.").replace("(self)", "(self.state)") for c in CANON_IN]
+    S_BONDS = BONDS.replace("self.", "self.state.")
+    S_OUT = ["forall(lambda j: iso(self.state.factors, j) == 1, 0, centre(self.state))",
+             "forall(lambda j: iso(self.state.factors, j) == 2, centre(self.state) + 1, self.state.num_sites)"]
+
+    def two_indices(I, n):
+        return (I.ctx.fresh("l", "int"), I.ctx.fresh("r", "int"))
+    PAIR_ASSERT = ("not (indices[1] == indices[0] + 1) or "
+                   "not (centre(self.state) == indices[0] or centre(self.state) == indices[1])")
+    reg.add_contract(Contract(
+        f"{IMPL}:MPSBackendImpl._evolve", property=prop, label="MPSBackendImpl._evolve[pair]",
+        params={"self": impl_obj, "indices": two_indices, "dt": "real", "orth_center_right": "bool"},
+        requires=["self.config.precision > 0", "self.config.max_bond_dim >= 1",
+                  "0 <= indices[0] and indices[1] < self.state.num_sites"] + S_CANON + [
+                  S_BONDS, "intact(self.state.factors)"],
+        raises={"AssertionError": PAIR_ASSERT},
+        ensures=[
+            # the declared centre follows orth_center_right ...
+            "centre(self.state) == (indices[1] if orth_center_right else indices[0])",
+            # ... and the factors are in canonical form with respect to it
+        ] + S_OUT + [
+            "chiL(self.state.factors, indices[1]) <= self.config.max_bond_dim",
+            S_BONDS,
+            "disc(self.state.factors, indices[1]) - disc(old(self.state.factors), indices[1]) <= "
+            "self.config.precision * self.config.precision or "
+            "chiL(self.state.factors, indices[1]) == self.config.max_bond_dim or self.has_lindblad_noise",
+            "intact(self.state.factors)",
+        ]), callsite=False)
+    reg.add_contract(Contract(
+        f"{IMPL}:MPSBackendImpl._evolve", property=prop, label="MPSBackendImpl._evolve[single]",
+        params={"self": impl_obj, "indices": lambda I, n: (I.ctx.fresh("index", "int"),), "dt": "real",
+                "orth_center_right": "none"},
+        requires=S_CANON + [S_BONDS, "intact(self.state.factors)"],
+        raises={"AssertionError": "not (centre(self.state) == indices[0])"},
+        ensures=["centre(self.state) == indices[0]"] + S_OUT + [
+            S_BONDS,
+            "forall(lambda j: chiL(self.state.factors, j) == chiL(old(self.state.factors), j), 0, self.state.num_sites)",
+            "forall(lambda j: disc(self.state.factors, j) == disc(old(self.state.factors), j), 1, self.state.num_sites)",
+            "intact(self.state.factors)",
+        ]), callsite=False)
+
     targets = [f"{UTILS}:truncate_impl"]
-    for nm in ("orthogonalize", "truncate", "norm", "apply"):
+    for nm in ("orthogonalize", "truncate", "norm", "apply", "__rmul__", "__imul__", "__add__"):
         targets += [f"{MPSMOD}:MPS.{nm}", f"{MPSMOD}:MPS.{nm}[centre None]"]
+    targets += [f"{SOLV}:evolve_pair", f"{IMPL}:MPSBackendImpl._evolve[pair]", f"{IMPL}:MPSBackendImpl._evolve[single]"]
     return targets
 
 
